@@ -272,6 +272,11 @@ func (fs *FS) Rename(oldname, newname string) error {
 	if err != nil {
 		return err
 	}
+	if oldname != newname {
+		if err := fs.checkRenameTarget(oldname, newname, oldInfo.IsDir()); err != nil {
+			return &hackpadfs.LinkError{Op: "rename", Old: oldname, New: newname, Err: err}
+		}
+	}
 	if !oldInfo.IsDir() {
 		if oldname == newname {
 			return nil
@@ -316,6 +321,21 @@ func (fs *FS) Rename(oldname, newname string) error {
 		}
 	}
 	return fs.setFile(oldname, nil)
+}
+
+// checkRenameTarget reports why 'oldname' cannot be moved to 'newname', or nil.
+func (fs *FS) checkRenameTarget(oldname, newname string, oldIsDir bool) error {
+	if newname != "." {
+		// the new parent must be an existing directory, otherwise the entry would become unreachable
+		parentInfo, err := fs.Stat(path.Dir(newname))
+		if err != nil {
+			return errors.Unwrap(err)
+		}
+		if !parentInfo.IsDir() {
+			return hackpadfs.ErrNotDir
+		}
+	}
+	return nil
 }
 
 // Stat implements hackpadfs.StatFS
